@@ -70,6 +70,10 @@ def _script(kind, variant):
     if variant == 'rejected':
         return [(b'AUTH EXTERNAL', b'REJECTED\r\n'), (b'AUTH DBUS_COOKIE_SHA1', b'REJECTED\r\n'),
                 (b'AUTH ANONYMOUS', b'REJECTED\r\n')]
+    if variant == 'rejected-list':
+        # a bus that accepts EXTERNAL only and does not like this peer: every refusal names that one mechanism
+        return [(b'AUTH EXTERNAL', b'REJECTED EXTERNAL\r\n'), (b'AUTH DBUS_COOKIE_SHA1', b'REJECTED EXTERNAL\r\n'),
+                (b'AUTH ANONYMOUS', b'REJECTED EXTERNAL\r\n')]
     if variant == 'hello-error':
         steps = [(b'AUTH EXTERNAL', b'OK ' + GUID + b'\r\n')]
         if kind == 'unix':
@@ -201,6 +205,11 @@ def run_connect(case):
             if case['variant'] == 'hello-error' and complete and not results:
                 out.append(Disc('connect.hello-error-does-not-fail-the-deferred',
                                 'Hello was answered with an error reply; the connect Deferred has not fired'))
+            if case['variant'] in ('rejected', 'rejected-list') and case['crash'] is None and not results:
+                # every mechanism was refused (or the client stopped offering): authentication is refused, and that
+                # concludes the attempt - whether or not the server ever hangs up
+                out.append(Disc('connect.refused-but-deferred-waits-for-the-server-to-hang-up:%s' % case['variant'],
+                                'client wrote %r and then neither closed nor failed the connect Deferred' % written))
             # the transport dies now (crash point / server hangs up) unless the client already closed it
             if not t.disconnected and not established_expected:
                 N.close(conn_proto, N.lost_reason())
@@ -277,7 +286,7 @@ def enum_connect(tier):
             first = reach.index(True)
             kind = 'unix' if entries[first].startswith('unix') else 'tcp'
             total = _total(kind)
-            for variant in ('rejected', 'hello-error', 'garbage'):
+            for variant in ('rejected', 'rejected-list', 'hello-error', 'garbage'):
                 yield {'entries': entries, 'reachable': reach, 'variant': variant, 'crash': None}
             # crash points: only once per (kind, position of first reachable) -- the walk before it is independent
             key = (kind, tuple(entries[:first + 1]))
@@ -298,7 +307,7 @@ def enum_connect(tier):
 def classify_connect(case):
     ph = _phase(case)
     labels = [ph, 'n=%d' % len(case['entries'])]
-    nt = ph in ('inside-ok', 'after-ok', 'before-hello-reply-complete', 'rejected', 'hello-error', 'garbage') or \
+    nt = ph in ('inside-ok', 'after-ok', 'before-hello-reply-complete', 'rejected', 'rejected-list', 'hello-error', 'garbage') or \
         (len(case['entries']) > 1)
     return nt, labels
 
